@@ -1,11 +1,11 @@
 #!/bin/sh
-# tools/seed_try.sh <worktree> : run every check against a scratch worktree holding a seeded change (evidence redirected)
+# tools/seed_try.sh <worktree> : run every check (16 at a time) against a scratch worktree holding a seeded change (evidence redirected)
 wt=$1
 tmp=$(mktemp -d /tmp/seedev_XXXX)
+for p in C01 C02 C03 C04 C05 C06 C07 C08 C09 C10 C11 C12 C13 C14 C15 C16 C17 C18 C19 C20; do echo $p; done | \
+xargs -P 16 -I{} sh -c 'SA_EVIDENCE_DIR='$tmp' /verif/check {} quick --repo '$wt' > '$tmp'/{}.out 2>&1; echo $? > '$tmp'/{}.rc'
 for p in C01 C02 C03 C04 C05 C06 C07 C08 C09 C10 C11 C12 C13 C14 C15 C16 C17 C18 C19 C20; do
-  out=$(SA_EVIDENCE_DIR=$tmp /verif/check $p quick --repo $wt 2>&1)
-  rc=$?
-  n=$(echo "$out" | grep -c '^FINDING')
-  if [ $rc -ne 0 ]; then echo "== $p rc=$rc new_findings=$n"; echo "$out" | grep '^FINDING\|ANALYSIS-ERROR' | cut -c1-330 | head -4; fi
+  rc=$(cat $tmp/$p.rc)
+  if [ "$rc" != 0 ]; then echo "== $p rc=$rc new_findings=$(grep -c '^FINDING' $tmp/$p.out)"; grep '^FINDING\|ANALYSIS-ERROR' $tmp/$p.out | cut -c1-330 | head -4; fi
 done
 rm -rf $tmp
